@@ -372,6 +372,29 @@ func (lc *loopCtx) classify(loop ast.Stmt) loopVerdict {
 					}
 					return false
 				})
+				// every assignment to the flag inside the loop must come from a call
+				plain := false
+				inspectNoLit(s.Body, func(x ast.Node) bool {
+					if as, ok := x.(*ast.AssignStmt); ok {
+						for i, l := range as.Lhs {
+							if env.lvalKey(l) == key {
+								isCall := false
+								if len(as.Rhs) == 1 {
+									_, isCall = ast.Unparen(as.Rhs[0]).(*ast.CallExpr)
+								} else if i < len(as.Rhs) {
+									_, isCall = ast.Unparen(as.Rhs[i]).(*ast.CallExpr)
+								}
+								if !isCall {
+									plain = true
+								}
+							}
+						}
+					}
+					return true
+				})
+				if plain {
+					return loopVerdict{Form: "LP-token", Detail: "the flag " + id.Name + " is also assigned a value that does not come from consuming input: the loop need not terminate"}
+				}
 				if passes {
 					return loopVerdict{Form: "LP-token", OK: true, Detail: "flag " + id.Name + " is re-assigned from a call on every path through the body (each true result consumed input; finiteness of the input is the callee's)"}
 				}
